@@ -287,6 +287,7 @@ func cmdStore(args []string) {
 	out := fs.String("out", "-", "output file (JSON lines)")
 	dir := fs.String("dir", "/dev/shm", "scratch directory")
 	workers := fs.Int("workers", 8, "parallel traces")
+	exact := fs.Uint64("seed-exact", 0, "run exactly this trace seed (replay)")
 	_ = fs.Parse(args)
 	w := os.Stdout
 	if *out != "-" {
@@ -308,7 +309,11 @@ func cmdStore(args []string) {
 		go func(i int) {
 			defer wg.Done()
 			defer func() { <-sem }()
-			traces[i] = runStoreTrace(*seed*1000003+uint64(i), *dir, *steps)
+			sd := *seed*1000003 + uint64(i)
+			if *exact != 0 {
+				sd = *exact
+			}
+			traces[i] = runStoreTrace(sd, *dir, *steps)
 		}(i)
 	}
 	wg.Wait()
